@@ -54,7 +54,7 @@ def probes():
     # two variants of probe 0 that share its window and resolution and differ in ONE calendar input each: a cache kept across
     # projects and keyed by less than everything the calendar depends on shows when they follow probe 0 (or each other)
     # ... and they call a macro with the SAME call text but different bodies (a cache of expansions kept across parses)
-    mac = lambda body: f"macro work [ {body} ]\n"  # noqa: E731
+    mac = lambda body: f"macro ver [2.1]\nmacro work [ {body} ]\n"  # noqa: E731
     extra = lambda eff: {"tasks": ps[0]["tasks"] + [{"id": "mw", "raw": ["${work r2}"]}]}  # noqa: E731
     # ... and their reports show values that are EQUAL as numbers but of different type: priority 500 / 700 (integers) in one,
     # costs of exactly 500.00 and 700.00 (floats) in the other (a cache of formatted cells keyed by value shows when they meet)
@@ -64,6 +64,12 @@ def probes():
              "tasks": [T("a", 120), T("b", 50, deps=["a"]), T("c", 84, "r2", prio=700), {"id": "mw", "raw": ["${work r2}"]}]}
     texts.append(mac("effort 2h allocate ${1}") + render.render({**ps[0], **extra(0), "pwh": [("mon - fri", ["8:00 - 12:00"])], "reports": [rep, rep_prio]}))
     texts.append(mac("effort 5h allocate ${1} priority 900") + render.render({**ps[0], **money, "vacations": [("2025-01-07", "2025-01-09")], "reports": [rep, rep_cost]}))
+    # ... and two texts that USE the macros of the previous two without defining them: alone the first is refused (undefined macro in a
+    # task body) and the second keeps the call text inside a string and has no ${projectend}; a macro table or a project end kept
+    # from an earlier parse would change both
+    texts.append(render.render({**ps[0], **extra(0), "reports": [rep]}))
+    texts.append(render.render({"dur": "240h", "resources": R, "tasks": [T("a", 90, name="Build ${ver}"), T("b", 50, deps=["a"]), {"id": "m", "milestone": True, "raw": ["${projectend}"]}],
+                                "reports": [rep]}))
     return texts
 
 
